@@ -1237,6 +1237,36 @@ private:
         };
 
         const auto& fields = request.fields;
+
+        // Authenticate before anything is registered, read or written, whichever way the chunk is delivered.
+        std::optional<std::string> control_token;
+        {
+            std::scoped_lock lock(node_mutex_);
+            control_token = node_.config().control_token;
+        }
+
+        const auto token_it = fields.find("TOKEN");
+        std::string rate_identity = remote_identity;
+        if (control_token.has_value()) {
+            if (token_it == fields.end()) {
+                auto error = make_error("ERR_FETCH_UNAUTHENTICATED",
+                                        "Control token required",
+                                        "Provide --control-token when invoking the CLI");
+                respond_error(std::move(error), "auth_missing", true, false);
+                return;
+            }
+            if (!constant_time_equal(*control_token, token_it->second)) {
+                auto error = make_error("ERR_FETCH_UNAUTHENTICATED",
+                                        "Invalid control token",
+                                        "Verify the shared secret configured on the daemon");
+                respond_error(std::move(error), "auth_invalid", true, false);
+                return;
+            }
+            rate_identity = hashed_token_identity(token_it->second);
+        } else if (token_it != fields.end()) {
+            rate_identity = hashed_token_identity(token_it->second);
+        }
+
         const auto manifest_it = fields.find("MANIFEST");
         if (manifest_it == fields.end()) {
             auto error = make_error("ERR_FETCH_MANIFEST_REQUIRED",
@@ -1300,34 +1330,6 @@ private:
         }
 
         if (stream_to_client) {
-            std::optional<std::string> control_token;
-            {
-                std::scoped_lock lock(node_mutex_);
-                control_token = node_.config().control_token;
-            }
-
-            const auto token_it = fields.find("TOKEN");
-            std::string rate_identity = remote_identity;
-            if (control_token.has_value()) {
-                if (token_it == fields.end()) {
-                    auto error = make_error("ERR_FETCH_UNAUTHENTICATED",
-                                            "Control token required",
-                                            "Provide --control-token when invoking the CLI");
-                    respond_error(std::move(error), "auth_missing", true, false);
-                    return;
-                }
-                if (!constant_time_equal(*control_token, token_it->second)) {
-                    auto error = make_error("ERR_FETCH_UNAUTHENTICATED",
-                                            "Invalid control token",
-                                            "Verify the shared secret configured on the daemon");
-                    respond_error(std::move(error), "auth_invalid", true, false);
-                    return;
-                }
-                rate_identity = hashed_token_identity(token_it->second);
-            } else if (token_it != fields.end()) {
-                rate_identity = hashed_token_identity(token_it->second);
-            }
-
             if (!allow_stream_fetch(rate_identity)) {
                 auto error = make_error("ERR_FETCH_RATE_LIMITED",
                                         "Too many FETCH requests",
